@@ -138,6 +138,25 @@ func c12(c *Ctx) {
 			}
 			return true
 		})
+		// the limit decision and the insertion are one critical section: no release between the limiter call and any write of the map
+		{
+			g := ax.FG(fn)
+			a := g.NodeOf(callNode)
+			mu := varKey(fn.Recv()) + sp.mu
+			for _, x := range g.Nodes {
+				as, ok := x.N.(*ast.AssignStmt)
+				if !ok {
+					continue
+				}
+				for _, l := range as.Lhs {
+					if ie, ok := unparen(l).(*ast.IndexExpr); ok && isField(info, ie.X, fVals) {
+						if rel := le.ReleasesBetween(fn, a, x, mu); rel != nil {
+							good, why = false, "the lock is released at "+ax.M.posStr(rel.N.Pos())+" between the limit decision and the insertion (concurrent first uses of new sets all pass the limit, or overwrite each other)"
+						}
+					}
+				}
+			}
+		}
 		c.Check(held && good && n >= 2, "R2", key, at(ax.M, fn.Pos()), itoa(n)+" map accesses, all by the limited set", "the cardinality limit can be bypassed or races ("+why+", lock held at limiter call: "+boolStr(held)+")")
 	}
 
